@@ -67,6 +67,7 @@ def build(cfg):
         info = {"measure": L, "area": float(beam.area), "dof_n": simu.Get_dof_n(), "dim": dim}
         return simu, info
     et = cfg["elem"]
+    plain_measure = None
     if et.startswith("SEG"):
         mesh = simlib.line_mesh(3, et, length=1.7)
     elif et == "MIXED":
@@ -86,7 +87,11 @@ def build(cfg):
             A[:2, :2] = A2
         else:
             A = A3
-        mesh = simlib.transform_mesh(mesh, A, np.array([0.3, -0.2, 0.1 if mesh.dim == 3 else 0.0]))
+        micro = 2.0 ** -13 if cfg.get("micro") else 1.0  # the same mesh in small length units (element Jacobians ~1e-9): exact scaling in floats
+        mesh = simlib.transform_mesh(mesh, A * micro, np.array([0.3, -0.2, 0.1 if mesh.dim == 3 else 0.0]) * micro)
+        if not (cfg.get("row") or cfg.get("mirror") or et == "MIXED"):
+            # independent of the library's own area / volume: the meshed domain is the unit square / cube, its affine image has measure |det A|
+            plain_measure = abs(float(np.linalg.det((A * micro)[:mesh.dim, :mesh.dim])))
     dim = mesh.dim
     if kind == "elastic":
         mat = make_material(cfg.get("law", "iso_stress" if dim == 2 else "iso"), dim)
@@ -99,6 +104,8 @@ def build(cfg):
         simu.rho = 2.7
         thick = 0.6 if dim == 2 else 1.0
     measure = {1: lambda: mesh.groupElem.length, 2: lambda: mesh.area, 3: lambda: mesh.volume}[dim]()
+    if plain_measure is not None:
+        measure = plain_measure
     return simu, {"measure": float(measure), "thickness": thick, "dof_n": simu.Get_dof_n(), "dim": dim}
 
 
@@ -114,7 +121,7 @@ def job(cfg):
     n = K.shape[0]
     dof_n, dim = info["dof_n"], info["dim"]
     coords = np.asarray(simu.mesh.coord, dtype=float)
-    key = f"{kind} {cfg['elem']}" + (f" dim={cfg.get('dim')} {'Timoshenko' if cfg.get('timoshenko') else 'EulerBernoulli'}" if kind == "beam" else f" {cfg.get('law', '')}") + (" half + mirrored half" if cfg.get("mirror") else "") + (" single row of elements" if cfg.get("row") else "")
+    key = f"{kind} {cfg['elem']}" + (f" dim={cfg.get('dim')} {'Timoshenko' if cfg.get('timoshenko') else 'EulerBernoulli'}" if kind == "beam" else f" {cfg.get('law', '')}") + (" half + mirrored half" if cfg.get("mirror") else "") + (" single row of elements" if cfg.get("row") else "") + (" in small length units (x 2^-13)" if cfg.get("micro") else "")
     res.functions |= {"_Simu.Get_K_C_M_F", "_Simu.Assembly", f"{kind.capitalize()}.Construct_local_matrix_system", "Bilinear.LinearizedElasticity", "Bilinear.GradUGradV",
                       "Bilinear.UV", "Bilinear.BeamStiffness", "Bilinear.BeamMass", "Gauss.Gauss_factory", "_GroupElem.Get_B_e_pg", "_GroupElem.Get_weightedJacobian_e_pg"}
     kmax = float(np.abs(K).max())
@@ -323,6 +330,10 @@ def main():
         configs.append({"sim": "elastic", "elem": et, "law": law, "row": True})
     for et in (["QUAD9", "HEXA20"] if tier == "quick" else ["QUAD8", "QUAD9", "HEXA20", "HEXA27", "PRISM15"]):
         configs.append({"sim": "thermal", "elem": et, "row": True})
+    # small length units: gmsh's unstructured quadrangles / hexahedra / wedges are not parallelograms, their Jacobian varies inside the element
+    for sim_, et, law in ((("elastic", "QUAD4", "iso_stress"), ("thermal", "HEXA8", None), ("elastic", "TRI6", "iso_strain")) if tier == "quick" else
+                          (("elastic", "QUAD4", "iso_stress"), ("thermal", "QUAD4", None), ("thermal", "HEXA8", None), ("elastic", "HEXA8", "iso"), ("elastic", "TRI6", "iso_strain"), ("thermal", "QUAD9", None), ("thermal", "PRISM6", None))):
+        configs.append({"sim": sim_, "elem": et, "micro": True, **({"law": law} if law else {})})
     for et in segs:
         for dim in (1, 2, 3):
             for tim in (False, True):
